@@ -253,8 +253,9 @@ def main(tier, seed):
     d_single, d_pair = (3, 2) if tier == "quick" else (5, 3)
     items = []
     L = layouts(tier)
-    for lay in L:
-        hs = R.histories(d_single)
+    for li, lay in enumerate(L):
+        # the two extra layouts of the thorough tier get single-fault histories one word shorter
+        hs = R.histories(d_single if li == 0 else d_single - 1)
         for i in range(0, len(hs), 6):
             items.append(dict(layout=lay, histories=hs[i:i + 6], kind="single"))
         hp = R.histories(d_pair)
@@ -285,7 +286,7 @@ def main(tier, seed):
             res.merge(d)
     res.bounds.update(slow_loop_histories=len(slow_hs), slow_loop_patterns=["calls 1 and 3", "calls 1, 2 and 4"], selection_change_histories=len(sel_hs), selection_change_after_step=[0, 1, 2, 3])
     res.bounds.update(fms_switch_history_depth=3 if tier == "quick" else 4, fms_switch_schedules="attached for the first j words then detached, and the converse, every j", exception_kinds=["plain Exception subclass", "exception whose __str__ raises (first call of each site)"])
-    res.bounds.update(single_fault_history_depth=d_single, fault_pair_history_depth=d_pair, layouts=len(L), sites=sites(L[0]), patterns=["1st call", "2nd call", "every call"])
+    res.bounds.update(single_fault_history_depth=d_single, single_fault_history_depth_other_layouts=d_single - 1, fault_pair_history_depth=d_pair, layouts=len(L), sites=sites(L[0]), patterns=["1st call", "2nd call", "every call"])
     rule = (
         "for every layout, every driver-station history up to the stated depth and every fault plan (each callback site x {first, second, every call}; "
         "all pairs of sites raising on every call): run the real robot with the FMS attached and compare the sequence of callback sites with "
